@@ -194,3 +194,20 @@ Definition corner_norm_i (phis Pre Pim : list Q) : option Z :=
 Definition check_c02 (phis Pre Pim : list Q) (tol : Q) : bool :=
   Nat.eqb (length phis) (length Pre) && Nat.eqb (length Pre) (length Pim) &&
   match corner_norm_i phis Pre Pim with Some n => scaled_le_q n (Qmult (100 # 1) tol) | None => false end.
+
+(* ---- C11: basis conversions over exact rationals *)
+Definition thr_1em8 : Q := 3022314549036573 # 302231454903657293676544.   (* the double 1e-8 = 0x1.5798ee2308c3ap-27 *)
+Definition qbig (c : Q) : bool := Qltb thr_1em8 (Qabs c).
+Definition p2l_q (p : list Q) : option (list Q) := poly2laurent OpsQ qhalf1 qisz0 qbig p.
+Definition c2p_q (kindU : bool) (cs : list Q) : list Q := c2p OpsQ kindU cs.
+Definition p2c_q (kindU : bool) (p : list Q) : list Q := p2c OpsQ qhalf1 kindU p.
+Definition ptlf_q (p : list Q) : option (lpoly Q) := target_F p.
+
+(* two Laurent polynomials denote the same function: their difference has only zero coefficients *)
+Definition lp_same (p q : lpoly Q) : bool :=
+  match lp_sub OpsQ p q with Some d => forallb qisz0 (lp_coefs d) | None => false end.
+(* l (on powers -(len-1) .. len-1) is the Laurent form of the polynomial p *)
+Definition check_p2l (p l : list Q) : bool :=
+  match target_F p with Some F => lp_same F (mk OpsQ l (- len l + 1)) | None => false end.
+(* instance certificate for poly2cheb: converting back with the (proved) cheb2poly gives p *)
+Definition check_p2c (kindU : bool) (p : list Q) : bool := qlist_eqb_exact (c2p_q kindU (p2c_q kindU p)) p.
